@@ -164,12 +164,14 @@ type builder struct {
 	ruleIDs map[string]string // rule.String() -> rule content ID
 	cutLog  []uint64          // goals refused because they are on the stack, in order
 	cond    map[uint64][]condResult
+	steps   int // goals visited; beyond maxSearchSteps alternatives are no longer explored
 }
 
 func (b *builder) build(goal ast.Atom, depth int) []*ProofNode {
 	if depth > b.opts.MaxDepth {
 		return []*ProofNode{{Fact: goal, Partial: true, ID: partialID(goal)}}
 	}
+	b.steps++
 	h := goal.Hash()
 	if b.onStack[h] {
 		b.cutLog = append(b.cutLog, h)
@@ -218,7 +220,7 @@ func (b *builder) build(goal ast.Atom, depth int) []*ProofNode {
 		// The first event of a fact only uses facts that were derived earlier,
 		// so it always yields a complete proof. Later events are alternatives;
 		// bound how many of them are examined.
-		if i >= 2*b.opts.MaxProofs+2 {
+		if i >= 2*b.opts.MaxProofs+2 || (i > 0 && b.steps > maxSearchSteps) {
 			break
 		}
 		p := b.buildFromEvent(ev, depth)
